@@ -32,6 +32,8 @@ def hex_missing(st, t, n=None):
         out.append("lower")
     if n is not None and not st.holds(("eq", CallT("builtin:len", [t]), C(n))):
         out.append("len==%d" % n)
+    if out and _validated_by_exact_checker(st, t, n):
+        return []
     if out:
         # not the literal conjunct list: decide the language of the string facts instead
         from . import hexlang
@@ -40,6 +42,50 @@ def hex_missing(st, t, n=None):
         if sem is not None:
             return sem
     return out
+
+
+_EXACT_BUSY = set()
+
+
+def _validated_by_exact_checker(st, t, n):
+    """the path holds ok(checker(t)) / predicate(t) is True for a validator of the repository that
+    is itself shown to accept exactly the lower-case hex strings (of n characters): the callee's
+    accepting paths may each establish the grammar in their own way, which a merged summary
+    cannot express - the callee's own exactness can"""
+    from . import hexlang
+
+    w = hexlang.current()
+    if w is None:
+        return False
+    eng = w.eng
+    for f in st.closure():
+        call = None
+        if f[0] == "ok" and is_call(f[1]) and f[1][1].startswith("repo:") and f[1][2] == (t,):
+            call, kind = f[1], "raiser"
+        elif f[0] == "ret" and f[2] is True and is_call(f[1]) and f[1][1].startswith("repo:") and f[1][2] == (t,):
+            call, kind = f[1], "predicate"
+        if call is None:
+            continue
+        q = call[1][5:].split("[")[0].split("<")[0]
+        fi = eng.prog.funcs.get(q)
+        if fi is None or fi.mod.short != "common" or len(fi.params()) < 1:
+            continue
+        for m in ([n] if n is not None else [None, 64, 128, 40]):
+            key = (q, kind, m)
+            if key in _EXACT_BUSY:
+                continue
+            cache = eng.__dict__.setdefault("_exact_hex", {})
+            if key not in cache:
+                _EXACT_BUSY.add(key)
+                try:
+                    cache[key] = (raiser_exact if kind == "raiser" else predicate_exact)(eng, q, "hex", m)[0]
+                except Exception:
+                    cache[key] = False
+                finally:
+                    _EXACT_BUSY.discard(key)
+            if cache[key]:
+                return True
+    return False
 
 
 def hex_refuted(facts, t, n=None):
